@@ -391,7 +391,7 @@ def rule_clock_freshness(run):
                            "captured value" if stale_capture else "no SystemTime::now in the predicate or its arguments"), reason="stale-clock-in-expiry")
                 continue
             # per-item freshness: in a loop body the reading must follow the iterator step; in a per-item closure any position is fresh
-            nxt = [x for x in b.calls() if x.bb in b.live_blocks() and x.fn.endswith("Iterator::next")]
+            nxt = [x for x in b.calls() if x.bb in b.live_blocks() and x.fn.endswith("Iterator::next") and not any("tracing" in str(m) for m in (x.exp or []))]
             fresh = True
             for sc in srcs:
                 if nxt and not any(q.dominated(b, sc.bb, via_blocks=[x.bb]) and q.reaches(b, x.bb, sc.bb) for x in nxt):
